@@ -48,8 +48,10 @@ THEOREMS = [
 SPLIT_INTEGRATORS = ("mjINT_EULER", "mjINT_IMPLICIT", "mjINT_IMPLICITFAST")
 
 
-SCRATCH = {"iscratch", "cstate"}   # arena arrays that some solver paths never write: their content is whatever the
-                                    # (uninitialised, not copied by mj_copyData) free arena held; determined by no stage
+# arena arrays that some solver paths never write: their content is whatever the (uninitialised, not copied by mj_copyData)
+# free arena held; determined by no stage.  (The island-ordered solver vectors are one group per array since the constraint
+# stage is analysed from its translated body, see checks/c01.py.)
+SCRATCH = {"iscratch", "cstate", "ifrc_smooth", "iacc_smooth", "iacc", "ifrc_constraint", "iefc_aref", "iefc_force"}
 
 
 def all_fields(sc):
